@@ -190,6 +190,55 @@ def run(chk):
                     chk.fail("imported-raises", f"using the process tensor imported as '{kind}' raises {ex!r} (the exported object does not)", dict(m, import_type=kind))
             chk.count("sentinel" if sentinel else "regular", 1)
 
+        # ---- every consumer gives identical results on the imported object: correlations, gradient, PT-TEBD ------------
+        from harness.c08 import InjParamSystem
+        for i in range(18 if thorough else 6):
+            d, d2 = 2, 4
+            N = rng.randint(2, 3)
+            p = rand_intpt(rng, d, N, maxbond=2, transforms=rng.random() < 0.5, lo=-1, hi=1, last_trivial=True)
+            p.dt = 0.1
+            pt = p.build()
+            fn = os.path.join(tmp, f"cons_{i % 2}.hdf5")
+            pt.export(fn, overwrite=True)
+            props = [(gint(rng, (d2, d2), -1, 1), gint(rng, (d2, d2), -1, 1)) for _ in range(N)]
+            dprops = [([gint(rng, (d2, d2), -1, 1)], [gint(rng, (d2, d2), -1, 1)]) for _ in range(N)]
+            rho0, tgt = gint(rng, (d, d), -2, 2), gint(rng, (d, d), -1, 1)
+            opa, opb = gint(rng, (d, d), -1, 1), gint(rng, (d, d), -1, 1)
+
+            def consumers(obj):
+                out = {}
+                cr = quiet(oqupy.compute_correlations, InjSystem(d, props), obj, opa, opb, times_a=slice(0, N), times_b=slice(0, N + 1),
+                           time_order="ordered", initial_state=rho0.copy(), progress_type="silent")
+                out["correlations"] = np.nan_to_num(np.array(cr[1]), nan=-777.0)
+                g = quiet(oqupy.state_gradient, system=InjParamSystem(d, props, dprops), initial_state=rho0.copy(), target_derivative=tgt.copy(),
+                          process_tensors=[obj], parameters=np.zeros((2 * N, 1)), progress_type="silent")
+                out["gradient"] = np.array(g["gradient"])
+                chain = oqupy.SystemChain([d, d])
+                chain.add_site_hamiltonian(0, 0.3 * oqupy.operators.sigma("x"))
+                chain.add_nn_hamiltonian(0, 0.5 * oqupy.operators.sigma("z"), oqupy.operators.sigma("z"))
+                tb = oqupy.PtTebd(oqupy.AugmentedMPS([np.eye(2) / 2 + 0.2 * oqupy.operators.sigma("x"), oqupy.operators.spin_dm("z+")]), chain, [obj, None],
+                                  oqupy.PtTebdParameters(dt=0.1, order=1, epsrel=1e-10), dynamics_sites=[0, 1])
+                r_ = quiet(tb.compute, N, progress_type="silent")
+                out["pt-tebd"] = np.concatenate([np.array(r_["dynamics"][k].states).reshape(-1) for k in (0, 1)])
+                return out
+            info = {"kind": "consumers", "N": N, "transforms": p.tin is not None, "ranks": [x.ndim for x in p.mpos]}
+            try:
+                base = consumers(pt)
+                for kind in ("file", "simple"):
+                    imp = ptm.import_process_tensor(fn, kind)
+                    got = consumers(imp)
+                    if kind == "file":
+                        imp.close()
+                    chk.search_cases += 1
+                    chk.count("consumers_" + kind)
+                    for name in base:
+                        if base[name].shape != got[name].shape or not np.allclose(base[name], got[name], rtol=0, atol=1e-9 * max(1.0, np.abs(base[name]).max())):
+                            chk.fail("imported-results-differ", f"{name} on the imported ('{kind}') process tensor differs from the original by "
+                                     f"{np.abs(base[name] - got[name]).max() if base[name].shape == got[name].shape else float('nan'):.2e}", dict(info, import_type=kind, consumer=name))
+            except Exception as ex:
+                chk.fail("imported-raises", f"a consumer of the imported process tensor raises {ex!r}", info)
+            chk.case(info, ("consumers", N, p.tin is not None, str(info["ranks"]), i))
+
         # ---- file-backed PT-TEMPO vs in-memory (same float operations) ----------
         sx_, sy_, sz_ = (oqupy.operators.sigma(a) for a in "xyz")
         for j in range(6 if thorough else 3):
